@@ -29,6 +29,13 @@ def _common(p, q, exc):
         'leader_keeps_term': Implies(And(p.role == L, q.role == L), Eq(q.term, p.term)),
         'commit_monotone': q.commit >= p.commit,
         'applied_monotone': q.applied >= p.applied,
+        # WF-pres: the well-formedness facts assumed of pre-states (DESIGN 3.1) hold of the post-state again
+        'wf_role_vote': Implies(q.role in (C, L), q.voted == 'a') if p.role is not None else True,
+        'wf_leader_pointer': Implies(q.role == L, q.leader == Node('a')),
+        'wf_leader_tables': Implies(q.role == L, all(x.id in q.next and x.id in q.match and x.id in q.resp for x in p.others)),
+        'wf_applied_le_commit': q.applied <= q.commit,
+        'wf_log_contiguous': And([Eq(q.log[k][1], q.log[0][1] + k) for k in range(len(q.log))] or [False]),
+        'wf_terms_nondecreasing_up_to_current': And([q.log[k][2] <= q.log[k + 1][2] for k in range(len(q.log) - 1)] + [q.log[-1][2] <= q.term] if q.log else [False]),
     }
     return cl
 
